@@ -15,15 +15,18 @@ TW = '<modulator::tweener::Tweener as modulator::Modulator>::update'
 
 
 def ungated(F, R, rule='B.C06.ungated'):
-    """Tween time advances whether or not the owner is paused: in every per-chunk function that both updates a Parameter
-    of `self` and has a freeze gate (clock not ticking, state not advancing, start time pending), the parameter updates
-    come before the gate."""
+    """Time-keeping advances whether or not the owner is paused: in every per-chunk function that both updates a
+    Parameter, a StartTime or the PlaybackStateManager of `self` and has a freeze gate (clock not ticking, state not
+    advancing), those updates come before the gate (tweens issued while paused start when due; a scheduled start is
+    latched or cancelled even while the sound is paused)."""
     n = 0
     for b in F.bodies:
         if b.krate != 'kira':
             continue
-        ups = [(bb, t) for bb, t in calls_to(b, 'parameter::Parameter::<T>::update', suffix=False)
-               if (describe(b, t['args'][0], depth=3, at=bb)).startswith('&(*self)')]
+        ups = [(bb, t) for bb, t in b.calls()
+               if (callee_path(t) or '') in ('parameter::Parameter::<T>::update', 'start_time::StartTime::update',
+                                             'playback_state_manager::PlaybackStateManager::update')
+               and (describe(b, t['args'][0], depth=3, at=bb)).startswith('&(*self)')]
         if not ups:
             continue
         gates = []
